@@ -28,8 +28,21 @@ def check_typestate(run, rule):
             n += 1
             seen = sum(1 for o in run.obs if o.rule == rule and o.key.startswith(f["qn"].split("::")[-1] + ":m_p"))
             run.ob(rule, "%s:m_p-read#%d" % (f["qn"].split("::")[-1], seen), ok, f, line, why)
-    run.floor(rule, 6, "reads through m_p in CdnsDecoder")
-    run.info["m_p_reads"] = n
+        agg = {}
+        for node, ok, line, why in ts.moves:
+            a = agg.setdefault(id(node), [node, True, line, why])
+            if not ok:
+                a[1], a[3] = False, why
+        for node, ok, line, why in agg.values():
+            n += 1
+            seen = sum(1 for o in run.obs if o.rule == rule and o.key.startswith(f["qn"].split("::")[-1] + ":m_p++"))
+            run.ob(rule, "%s:m_p++#%d" % (f["qn"].split("::")[-1], seen), ok, f, line, why)
+        for node, ok, why in decoder.cursor_moves(f):
+            n += 1
+            seen = sum(1 for o in run.obs if o.rule == rule and o.key.startswith(f["qn"].split("::")[-1] + ":cursor"))
+            run.ob(rule, "%s:cursor#%d" % (f["qn"].split("::")[-1], seen), ok, f, node.get("l", 0), why)
+    run.floor(rule, 8, "reads through m_p, cursor moves and bulk reads in CdnsDecoder")
+    run.info["m_p_reads_and_moves"] = n
 
 
 def check_refill(run, rule):
